@@ -163,4 +163,52 @@ instance (tasks : List Task) : Decidable (WF tasks) := by
 def findName {α} (name : α → String) (n : String) (l : List α) : Option α := l.find? fun c => name c == n
 
 
+/-! ## workflows with iterators: the Spec is evaluated against the template AS WRITTEN
+
+  "every outbound channel whose target names another role's channel …": in a
+  workflow template the target is an EXPRESSION (`{{ Parent().Path }}.sink:data`,
+  `host-{{ it }}.sink:data`, `::g-{{ it }}`); an iterator generates one role per
+  value of its range, and the channel a generated role NAMES is the expression
+  instantiated with THAT role's variables and position. So the tasks the Spec
+  speaks about carry, for every generated role, the template's declarations
+  instantiated per instance — whatever the loader left in its role objects. -/
+
+/-- The declarations in force for every task role the template generates, in tree order. -/
+def templateDecls (root : TForest) : List TaskDecl := flatten "" [] [] (expand Ctx.top root)
+
+/-- What the loaded workflow hands to the task manager for one task role
+    (`Descriptor.RoleBind` / `RoleConnect` = `Collect{In,Out}boundChannels()`). -/
+structure SeenDecl where
+  path : String
+  bind : List Inbound
+  connect : List Outbound
+  deriving DecidableEq, Repr, Inhabited
+
+def TaskDecl.seen (d : TaskDecl) : SeenDecl := { path := d.path, bind := d.roleBind, connect := d.roleConnect }
+
+/-- Every generated role ended up with the text of ITS OWN instantiation
+    (resolved target and alias text, per generated role). -/
+def ResolvedAsWritten (root : TForest) (seen : List SeenDecl) : Prop :=
+  seen = (templateDecls root).map TaskDecl.seen
+
+instance (root : TForest) (seen : List SeenDecl) : Decidable (ResolvedAsWritten root seen) := by
+  unfold ResolvedAsWritten; exact inferInstance
+
+/-- The tasks of a template whose generated task roles were launched at `launch`
+    (role path, host, local bind map — one per generated task role, tree order). -/
+def templateTasks (classes : List (String × Class)) (root : TForest) (launch : List (String × String × BindMap)) : List Task :=
+  ((templateDecls root).zip launch).map fun (d, l) => mkTask classes d l.1 l.2.1 l.2.2
+
+/-- Spec of one load + CONFIGURE of a workflow template. -/
+def SpecTW (a b : Bool) (classes : List (String × Class)) (root : TForest) (launch : List (String × String × BindMap))
+    (seen : List SeenDecl) (r : Except Err (List Props)) : Prop :=
+  ResolvedAsWritten root seen ∧ SpecW a b (templateTasks classes root launch) r
+
+instance (a b : Bool) (classes : List (String × Class)) (root : TForest) (launch : List (String × String × BindMap))
+    (seen : List SeenDecl) (r : Except Err (List Props)) : Decidable (SpecTW a b classes root launch seen r) := by
+  unfold SpecTW; exact inferInstance
+
+abbrev SpecT := SpecTW false false
+
+
 end Channels
